@@ -37,8 +37,11 @@ def GoodClientUnaffected (cfg : Cfg) : Prop :=
 def Isolation (cfg : Cfg) : Prop := ∀ ops : List Op, Iso (run (init cfg) ops)
 
 /-- the configurations of the code as it is: how the pool's end-of-stream path treats a reused descriptor number is read
-off the live code on every run (`Gen.Srv.poolDropSparesNewcomer`) -/
-def ofCode (cfg : Cfg) : Prop := cfg.spare = Gen.Srv.poolDropSparesNewcomer
+off the live code on every run (`Gen.Srv.poolDropSparesNewcomer`), and so are the accept loop's reaction to a failing
+`accept()` and the order in which the pool's `close()` ends streams and joins workers -/
+def ofCode (cfg : Cfg) : Prop :=
+  cfg.spare = Gen.Srv.poolDropSparesNewcomer ∧ cfg.acceptTough = Gen.Srv.acceptSurvivesTransientError ∧
+  cfg.closeUnblocks = Gen.Srv.poolCloseUnblocksWorkers
 
 /-- the property at full strength, for the server kinds of its quantifier -/
 def C16_statement : Prop :=
@@ -148,7 +151,9 @@ theorem foreign_reference_fails_pool (cfg : Cfg) (hk : cfg.kind = .pool) (ops : 
 /-! ### the pool server: the statement fails (findings `C16:pool:>=nbThreads-incomplete-frame-clients`,
 `C16:pool:auth-stall-blocks-accept`) -/
 
-def poolCfg : Cfg := { kind := .pool, auth := false, nb := 2, spare := Gen.Srv.poolDropSparesNewcomer }
+def poolCfg : Cfg :=
+  { kind := .pool, auth := false, nb := 2, spare := Gen.Srv.poolDropSparesNewcomer,
+    acceptTough := Gen.Srv.acceptSurvivesTransientError, closeUnblocks := Gen.Srv.poolCloseUnblocksWorkers }
 /-- three clients connect; two of them send the header of a frame announcing 0xFFFFFFFF bytes and nothing else -/
 def starve : List Op :=
   [.connect 1 .good, .connect 2 .good, .connect 3 .good,
@@ -167,13 +172,15 @@ theorem C16_pool_witness :
 /-- **C16_pool_counterexample**: the full statement is false on the pinned code (worker starvation) -/
 theorem C16_pool_counterexample : ¬ C16_statement := by
   intro h
-  have h2 := (h poolCfg rfl (by decide) (by decide)).2.1 starve 3 [.call 3 .ping] (by decide)
+  have h2 := (h poolCfg ⟨rfl, rfl, rfl⟩ (by decide) (by decide)).2.1 starve 3 [.call 3 .ping] (by decide)
     (by simp only [Ready]; decide) (by intro op hop; simp at hop; subst hop; exact ⟨rfl, fun _ => ⟨.ping, rfl⟩⟩)
   have hobs : runObs (run (init poolCfg) starve) [.call 3 .ping] = [some .timeout] := by decide
   rw [hobs] at h2
   simp [answered, callOf] at h2
 
-def stallCfg : Cfg := { kind := .pool, auth := true, nb := 2, spare := Gen.Srv.poolDropSparesNewcomer }
+def stallCfg : Cfg :=
+  { kind := .pool, auth := true, nb := 2, spare := Gen.Srv.poolDropSparesNewcomer,
+    acceptTough := Gen.Srv.acceptSurvivesTransientError, closeUnblocks := Gen.Srv.poolCloseUnblocksWorkers }
 /-- a client connects to a pool server with an authenticator and sends nothing -/
 def stall : List Op := [.connect 1 .good, .connect 2 .silent]
 
@@ -188,7 +195,7 @@ theorem C16_pool_stall_witness :
 /-- **C16_pool_stall_counterexample**: the full statement is false on the pinned code (accept thread stalled) -/
 theorem C16_pool_stall_counterexample : ¬ C16_statement := by
   intro h
-  have h1 := ((h stallCfg rfl (by decide) (by decide)).1 stall (by decide)).free
+  have h1 := ((h stallCfg ⟨rfl, rfl, rfl⟩ (by decide) (by decide)).1 stall (by decide)).free
   revert h1
   decide
 
@@ -255,6 +262,19 @@ theorem accept_fault_changes_nothing (cfg : Cfg) (hk : cfg.kind = .threaded ∨ 
     (ht : cfg.acceptTough = true) (ops : List Op) (hops : ∀ op ∈ ops, op.c16 = true) :
     step (run (init cfg) ops) .acceptFault = .ok (run (init cfg) ops, .none) :=
   accept_fault_harmless _ (by rw [run_cfg]; exact ht) (accept_survives cfg hk ops hops).canAccept
+
+/-- the two together, for the configurations of the code as it is (`ofCode`): the hypothesis `acceptTough = true` is the
+measured obligation -/
+theorem code_accept_fault_changes_nothing (cfg : Cfg) (hc : ofCode cfg) (hk : cfg.kind = .threaded ∨ cfg.kind = .forking)
+    (ops : List Op) (hops : ∀ op ∈ ops, op.c16 = true) :
+    step (run (init cfg) ops) .acceptFault = .ok (run (init cfg) ops, .none) :=
+  accept_fault_changes_nothing cfg hk (hc.2.1.trans accept_survives_transient_errors) ops hops
+
+/-- ... and for whole runs: a run of the code with such errors interleaved anywhere is the run without them, so every
+run-level theorem of this file extends to alphabets with `acceptFault` -/
+theorem code_run_ignores_accept_faults (cfg : Cfg) (hc : ofCode cfg) (ops : List Op) :
+    run (init cfg) ops = run (init cfg) (ops.filter (fun op => !op.isFault)) :=
+  run_ignores_accept_faults (init cfg) (hc.2.1.trans accept_survives_transient_errors) ops
 
 /-- the same for the pool, as long as nobody stalls its authentication (then the accept thread is not in `accept()`) -/
 theorem accept_fault_changes_nothing_pool (cfg : Cfg) (hk : cfg.kind = .pool) (ht : cfg.acceptTough = true)
